@@ -1,36 +1,2 @@
-(* ManagerSpGen.v - GENERATED by harness/pytrans_sp.py from the current source of
-   sqlalchemy_continuum/manager.py (session_unit_of_work, track_savepoint, rollback_savepoint, forget_savepoints).
-   Do not edit: the file is rewritten on every build.  Proofs/ManagerSpGenP.v proves these definitions equal to the
-   functions of Model/ManagerSp.v. *)
-From Continuum Require Import Model.Base Model.VTable Model.Core Model.Manager.
-
-(* the connection registered for the session and the unit of work registered for it, if both exist *)
-Definition gen_session_unit_of_work (U : list (nat * uow)) (M : list (nat * nat)) (session : nat)
-  : option (nat * uow) :=
-  match aget M session with
-  | None => None
-  | Some conn => match aget U conn with Some u => Some (conn, u) | None => None end
-  end.
-
-(* what is remembered when a nested transaction begins: the unit of work found for the session (its savepoint()
-   state is the whole model unit of work), or nothing for a transaction that is not nested *)
-Definition gen_track_savepoint (nested : bool) (U : list (nat * uow)) (M : list (nat * nat)) (session : nat)
-  : option (option uow) :=
-  if nested then Some (option_map snd (gen_session_unit_of_work U M session)) else None.
-
-(* rollback_savepoint once the entry (old_uow, state) of the savepoint has been found; `old_uow is uow` is rendered
-   as "a unit of work was remembered" (see Proofs/ManagerSpP.v, stack_inv) *)
-Definition gen_rollback_savepoint (U : list (nat * uow)) (M : list (nat * nat)) (session : nat) (old_uow : option uow)
-  : list (nat * uow) * list (nat * nat) :=
-  match gen_session_unit_of_work U M session with
-  | None => (U, M)
-  | Some (c, _) =>
-      if (match old_uow with Some _ => true | None => false end)
-      then (match old_uow with Some st => let U := aset U c st in (U, M) | None => (U, M) end)
-      else (let popped := aget M session in let M := adel M session in
-       match popped with Some conn => (let U := adel U conn in (U, M)) | None => (U, M) end)
-  end.
-
-(* forget_savepoints(session): every entry of the session is dropped (checked verbatim) - the model empties the
-   session's stack *)
-Definition gen_forget_savepoints_drops_the_sessions_entries : bool := true.
+(* ManagerSpGen.v - the translator REFUSED the current source: __init__: after_commit is not bound to self.after_commit *)
+Definition translator_refused : unit := the_source_left_the_supported_subset.
